@@ -378,6 +378,12 @@ func InnerText(node *html.Node) string {
 				return
 			}
 
+			// Script and style text is never part of the inner text,
+			// even when an inline style makes the element "visible".
+			if n.Data == "script" || n.Data == "style" {
+				return
+			}
+
 			if !IsProbablyVisible(n) {
 				return
 			}
